@@ -3,5 +3,6 @@ CONSTANT R = 1
 CONSTANT P2Origin = TRUE
 CONSTANT Impl = "v2"
 CONSTANT M1Order = "n1_x_b2"
+CONSTANT Slice = TRUE
 INVARIANT LatticeOctant
 CHECK_DEADLOCK FALSE
